@@ -238,7 +238,11 @@ func (c cfg) script() (string, error) {
 		if err != nil {
 			return "", err
 		}
-		fmt.Fprintf(&b, "    |percentile('%s', %s)\n", field, strconv.FormatFloat(math.Float64frombits(bits), 'f', -1, 64))
+		lit := strconv.FormatFloat(math.Float64frombits(bits), 'f', -1, 64)
+		if !strings.Contains(lit, ".") {
+			lit += ".0" // a TICKscript float literal
+		}
+		fmt.Fprintf(&b, "    |percentile('%s', %s)\n", field, lit)
 	case "top", "bottom", "movingAverage":
 		if !strings.HasPrefix(c.arg, "n:") {
 			return "", fmt.Errorf("%s needs n:", c.fn)
@@ -260,7 +264,10 @@ func (c cfg) script() (string, error) {
 		if err != nil {
 			return "", err
 		}
-		fmt.Fprintf(&b, "    |elapsed('%s', %dns)\n", field, n)
+		if n <= 0 || n%1000 != 0 {
+			return "", fmt.Errorf("elapsed unit must be whole microseconds")
+		}
+		fmt.Fprintf(&b, "    |elapsed('%s', %du)\n", field, n/1000)
 	default:
 		return "", fmt.Errorf("unknown fn %q", c.fn)
 	}
